@@ -459,6 +459,7 @@ type FuncContract struct {
 	Ats      []*AtClause
 	Pragmas  map[string]string
 	Assumes  []Clause // named, listed assumptions (history-length etc.)
+	Fits     []string // source texts of arithmetic expressions assumed not to overflow
 	// stubs only
 	IsStub  bool
 	Params  []ParamDecl
@@ -810,7 +811,17 @@ func (sp *Specs) ParseSpecFile(path string) error {
 				sp.Scan = append(sp.Scan, fmt.Sprintf("trusted contract %s (%s:%d)", cur.Key, shortPath(path), l.no))
 			case "pragma":
 				k, v := firstWord(rest)
+				if k == "fits" {
+					// pragma fits <source text>: the overflow obligation of that expression is assumed
+					cur.Fits = append(cur.Fits, v)
+					sp.Scan = append(sp.Scan, fmt.Sprintf("assumed: %q does not overflow, in %s (%s:%d)", v, cur.Key, shortPath(path), l.no))
+					continue
+				}
 				cur.Pragmas[k] = v
+				switch k + " " + v {
+				case "frame off", "nooverflow skip", "fdiv unchecked", "floats real":
+					sp.Scan = append(sp.Scan, fmt.Sprintf("pragma %s %s in %s (%s:%d)", k, v, cur.Key, shortPath(path), l.no))
+				}
 				if k == "wraps" {
 					sp.Scan = append(sp.Scan, fmt.Sprintf("wraps %s in %s (%s:%d)", v, cur.Key, shortPath(path), l.no))
 				}
